@@ -160,15 +160,33 @@ Sorted(I) == SortedAt(I, 1)
 (***************************************************************************)
 (* THE PROPERTY (C12), clause by clause, over an instance I, the graph r   *)
 (* on which sort() was called and a result R = [ok, order].                *)
+(* The dependency analysis of an instance (A == Analysis(I)) is computed   *)
+(* once and passed around; the plain operators below take it implicitly.   *)
 (***************************************************************************)
 
 \* dependencies inside graph g: p must precede n when n, or a node nested anywhere inside n, uses a
 \* value produced by p (p, n both directly in g)
 DepOf(I, g) ==
-  {e \in NodesIn(I, g) \X NodesIn(I, g) : \E m \in Nest(I, e[2]) : e[1] \in TsRange(I.ins[m])}
+  LET S    == NodesIn(I, g)
+      used == [n \in S |-> UNION {TsRange(I.ins[m]) : m \in Nest(I, n)}]
+  IN {e \in S \X S : e[1] \in used[e[2]]}
 
-TopoGraph(I, g, ord) == \A e \in DepOf(I, g) : TsPos(ord, e[1]) < TsPos(ord, e[2])
-Topo(I, r, order) == \A g \in Scope(I, r) : TopoGraph(I, g, order[g])
+\* transitive closure of a relation over the nodes listed in s (Warshall)
+RECURSIVE TsClose(_, _, _)
+TsClose(R, s, k) ==
+  IF k > Len(s) THEN R
+  ELSE TsClose(R \cup {e \in TsRange(s) \X TsRange(s) : <<e[1], s[k]>> \in R /\ <<s[k], e[2]>> \in R},
+               s, k + 1)
+CyclicRel(D, s) == \E e \in TsClose(D, s, 1) : e[1] = e[2]
+
+Analysis(I) ==
+  LET dep == [g \in GraphsOf(I) |-> DepOf(I, g)]
+  IN [dep |-> dep,
+      cyc |-> [g \in GraphsOf(I) |-> CyclicRel(dep[g], I.order[g])]]
+
+TopoRel(D, ord) == \A e \in D : TsPos(ord, e[1]) < TsPos(ord, e[2])
+TopoA(I, A, r, order) == \A g \in Scope(I, r) : TopoRel(A.dep[g], order[g])
+CyclicA(I, A, r) == \E g \in Scope(I, r) : A.cyc[g]
 
 OwnNodes(I, order) ==
   /\ Len(order) = Len(I.order)
@@ -176,31 +194,33 @@ OwnNodes(I, order) ==
         /\ Len(order[g]) = Len(I.order[g])
         /\ TsRange(order[g]) = NodesIn(I, g)
 
-RECURSIVE TsClose(_)
-TsClose(R) ==
-  LET R2 == R \cup {<<x[1][1], x[2][2]>> : x \in {y \in R \X R : y[1][2] = y[2][1]}}
-  IN IF R2 = R THEN R ELSE TsClose(R2)
-CyclicGraph(I, g) == \E e \in TsClose(DepOf(I, g)) : e[1] = e[2]
-Cyclic(I, r) == \E g \in Scope(I, r) : CyclicGraph(I, g)
-
 \* "every node comes after the producers, located in the same graph, of every value used by it or
-\*  by any node nested inside it; each graph keeps exactly its own nodes"
-PTopo(I, r, R)     == (~Cyclic(I, r)) => (R.ok /\ OwnNodes(I, R.order) /\ Topo(I, r, R.order))
+\*  by any node nested inside it" (sorting succeeds whenever such an order exists)
+PTopoA(I, A, r, R) == (~CyclicA(I, A, r)) => (R.ok /\ OwnNodes(I, R.order) /\ TopoA(I, A, r, R.order))
+\* "each graph keeps exactly its own nodes"
 POwnNodes(I, r, R) == OwnNodes(I, R.order)
 \* "a graph already in such an order is left exactly as it was"
-PStable(I, r, R)   == Topo(I, r, I.order) => (R.ok /\ R.order = I.order)
+PStableA(I, A, r, R) == TopoA(I, A, r, I.order) => (R.ok /\ R.order = I.order)
 \* "if the dependencies contain a cycle a ValueError is raised and no graph's order changes"
-PCycleAtomic(I, r, R) == /\ Cyclic(I, r) => ~R.ok
-                         /\ ~R.ok => R.order = I.order
+PCycleAtomicA(I, A, r, R) == /\ CyclicA(I, A, r) => ~R.ok
+                             /\ ~R.ok => R.order = I.order
 \* (Determ - the result is a function of structure and previous order - holds of SortedAt by
 \*  construction; for the code it is checked on repeated observations in TopoSortTrace.)
 
-FailedClauses(I, r, R) ==
-     (IF POwnNodes(I, r, R) THEN <<>> ELSE <<"OwnNodes">>)
-  \o (IF POwnNodes(I, r, R) /\ ~PTopo(I, r, R) THEN <<"Topo">> ELSE <<>>)
-  \o (IF POwnNodes(I, r, R) /\ ~PStable(I, r, R) THEN <<"Stable">> ELSE <<>>)
-  \o (IF PCycleAtomic(I, r, R) THEN <<>> ELSE <<"CycleAtomic">>)
+FailedA(I, A, r, R) ==
+  LET own == POwnNodes(I, r, R) IN
+     (IF own THEN <<>> ELSE <<"OwnNodes">>)
+  \o (IF own /\ ~PTopoA(I, A, r, R) THEN <<"Topo">> ELSE <<>>)
+  \o (IF own /\ ~PStableA(I, A, r, R) THEN <<"Stable">> ELSE <<>>)
+  \o (IF PCycleAtomicA(I, A, r, R) THEN <<>> ELSE <<"CycleAtomic">>)
 
+\* the same without an explicit analysis
+Topo(I, r, order)     == TopoA(I, Analysis(I), r, order)
+Cyclic(I, r)          == CyclicA(I, Analysis(I), r)
+PTopo(I, r, R)        == PTopoA(I, Analysis(I), r, R)
+PStable(I, r, R)      == PStableA(I, Analysis(I), r, R)
+PCycleAtomic(I, r, R) == PCycleAtomicA(I, Analysis(I), r, R)
+FailedClauses(I, r, R) == FailedA(I, Analysis(I), r, R)
 Holds(I, r, R) == FailedClauses(I, r, R) = <<>>
 
 (***************************************************************************)
@@ -231,26 +251,17 @@ RefGlobal(I, r) ==
 \*     own previous order none of whose dependants (DepOf) remains; reverse
 RefGraph(I, g) ==
   LET S    == NodesIn(I, g)
-      succ == [p \in S |-> {n \in S : <<p, n>> \in DepOf(I, g)}]
+      D    == DepOf(I, g)
+      succ == [p \in S |-> {n \in S : <<p, n>> \in D}]
   IN TakeLast(S, succ, [n \in S |-> TsPos(I.order[g], n)], <<>>)
 RefPerGraph(I, r) ==
-  IF \E g \in Scope(I, r) : Len(RefGraph(I, g)) # Len(I.order[g]) THEN Result(FALSE, I.order)
-  ELSE Result(TRUE, [g \in GraphsOf(I) |->
-                       IF g \in Scope(I, r) THEN TsRev(RefGraph(I, g)) ELSE I.order[g]])
+  LET ref == [g \in GraphsOf(I) |-> IF g \in Scope(I, r) THEN RefGraph(I, g) ELSE I.order[g]]
+  IN IF \E g \in Scope(I, r) : Len(ref[g]) # Len(I.order[g]) THEN Result(FALSE, I.order)
+     ELSE Result(TRUE, [g \in GraphsOf(I) |-> IF g \in Scope(I, r) THEN TsRev(ref[g]) ELSE I.order[g]])
 
-\* a Topo order exists (used to cross-check Cyclic on the small scope)
+\* a Topo order exists (used to cross-check the definition of Cyclic on the small scope)
 RECURSIVE TsPerms(_)
 TsPerms(S) == IF S = {} THEN {<<>>} ELSE UNION {{<<x>> \o p : p \in TsPerms(S \ {x})} : x \in S}
-HasTopoOrder(I, r) == \A g \in Scope(I, r) : \E ord \in TsPerms(NodesIn(I, g)) : TopoGraph(I, g, ord)
-
-\* the theorems TLC checks for every enumerated instance and every start graph
-Theorems(I, r) ==
-  LET R == SortedAt(I, r) IN
-  /\ PTopo(I, r, R) /\ POwnNodes(I, r, R) /\ PStable(I, r, R) /\ PCycleAtomic(I, r, R)
-  /\ R.ok <=> ~Cyclic(I, r)
-  /\ \A g \in GraphsOf(I) \ Scope(I, r) : R.order[g] = I.order[g]
-RefTheorems(I, r) ==
-  /\ RefGlobal(I, r) = SortedAt(I, r)
-  /\ RefPerGraph(I, r) = SortedAt(I, r)
-  /\ Cyclic(I, r) <=> ~HasTopoOrder(I, r)
+HasTopoOrder(I, r) ==
+  \A g \in Scope(I, r) : \E ord \in TsPerms(NodesIn(I, g)) : TopoRel(DepOf(I, g), ord)
 =============================================================================
